@@ -321,6 +321,11 @@ main(int argc, char **argv)
         if (posix_memalign((void **) &st, 64, sizeof *st) || posix_memalign((void **) &ref, 64, sizeof *ref))
                 return 2;
         memset(st, 0, sizeof *st);
+        {       /* C20 paired executions: junk in the state object before init (init/reset must define all they use) */
+                const char *pz = getenv("VERIF_POISON");
+                if (pz && atoi(pz))
+                        memset(st, 0x35 * atoi(pz) + 0x11, sizeof *st);
+        }
         uint8_t *buf = malloc((size_t) maxlen + SLACK + ISAL_FINGERPRINT_MAX_WINDOW);
         uint8_t initb[ISAL_FINGERPRINT_MAX_WINDOW];
 
